@@ -840,6 +840,11 @@ def wsDrop (w : World) (c : Nat) : World :=
   | some ti => trOnCloseBase w ti                            -- unexpected EOF: the connection's "close"
   | none => w
 
+/-- the client closes the connection with a close frame carrying `code`: the server echoes the frame
+    (the client reads `close:<code>:`), the read loop ends with a close error — the peer closed, whatever the code -/
+def wsCloseFrame (w : World) (c : Nat) (code : Nat) : World :=
+  wsDrop (w.setConn c fun x => { x with ended := if x.ended.isNone then some s!"close:{code}:-" else x.ended }) c
+
 /-- `socket.Close(discard)` -/
 def appClose (w : World) (sid : Nat) (discard : Bool) : World :=
   let s := w.sock sid
@@ -947,6 +952,7 @@ inductive Op where
   | wtCandidate (sid : Nat)
   | frame (c : Nat) (m : Msg)
   | drop (c : Nat)
+  | closeFrame (c : Nat) (code : Nat)
   | send (sid : Nat) (m : Msg) (compress wantCb : Bool) (pre : Option Msg)
   | close (sid : Nat) (discard : Bool)
   | shutdown
@@ -972,6 +978,7 @@ def step (w : World) (op : Op) : World :=
     if (match cn.ended with | some how => how.startsWith "refused" | none => false) then w
     else (wsFrame w c m).1
   | .drop c => wsDrop w c
+  | .closeFrame c code => wsCloseFrame w c code
   | .send sid m compress wantCb pre => appSend w sid m compress wantCb pre
   | .close sid discard => appClose w sid discard
   | .shutdown => shutdown w
